@@ -147,7 +147,7 @@ exporter emits — parsed by the strict recogniser and expanded by the standard 
 `qelib1.inc` and the emitted definitions — has, on the `c.N`-qubit register, the unitary `denX` of the
 circuit up to ONE global phase. -/
 theorem export_den_ops (c : Circuit) (hc : GoodCircuit c) :
-    ∃ lines P ops A B, exportCircuit c = .ok lines ∧ parseLines lines = some P ∧
+    ∃ lines P ops A B, exportCore c = .ok lines ∧ parseLines lines = some P ∧
       denote P = .ok (c.N, (cregsOf c.numCbits).total, ops) ∧
       denOps c.N ops = some A ∧ denX c.N (c.ops.filterMap xOfOp) = some B ∧ PhaseEqN A B := by
   obtain ⟨lines, h1, h2⟩ := export_parse c hc
